@@ -8,6 +8,7 @@ import (
 	"fmt"
 	"os"
 	"path/filepath"
+	"runtime/pprof"
 	"sort"
 	"strconv"
 	"strings"
@@ -33,6 +34,7 @@ type JobConfig struct {
 	Canary     bool           `json:"canary,omitempty"`
 	ExpectViolation bool      `json:"expect_violation,omitempty"` // canary twin
 	Trace      bool           `json:"-"`
+	Concrete   *NativeWitness `json:"-"`
 	Name       string         `json:"name,omitempty"`
 }
 
@@ -321,6 +323,16 @@ func main() {
 	if len(os.Args) < 2 {
 		fmt.Fprintln(os.Stderr, "usage: symgo check <ID> [--tier quick|thorough] | symgo run ...")
 		os.Exit(2)
+	}
+	if pf := os.Getenv("SYMGO_PROF"); pf != "" {
+		f, _ := os.Create(pf)
+		pprof.StartCPUProfile(f)
+		go func() {
+			time.Sleep(20 * time.Second)
+			pprof.StopCPUProfile()
+			f.Close()
+			os.Exit(3)
+		}()
 	}
 	switch os.Args[1] {
 	case "check":
